@@ -13,7 +13,7 @@
                          is_results_line, skip_to_results_line, table_expected_floats,
                          key_positions (+ mulgrids.valid_blockname), setup_table_TOUGH2,
                          setup_tables_TOUGH2, read_table_TOUGH2, skip_table_TOUGH2,
-                         skip_to_table_TOUGH2, next_tablename, read_tables_TOUGH2
+                         read_tables_TOUGH2
       TOUGH+             table_type_TOUGHplus, next_table_TOUGHplus, setup_tables_TOUGHplus,
                          read_tables_TOUGHplus
       AUTOUGH2           setup_short_types, setup_pos_AUTOUGH2, read_header_AUTOUGH2,
@@ -108,12 +108,13 @@ Fixpoint set_nth {A} (i : nat) (v : A) (l : list A) : list A :=
   | x :: r, S j => x :: set_nth j v r
   end.
 (** [self._data[i,:] = value]: the value must have one entry per column *)
+Definition with_data (T : ltable) (d : list (list pyval)) : ltable :=
+  {| lt_cols := lt_cols T; lt_rows := lt_rows T; lt_nkeys := lt_nkeys T; lt_keypos := lt_keypos T;
+     lt_values := lt_values T; lt_rowline := lt_rowline T; lt_hskip := lt_hskip T; lt_skips := lt_skips T; lt_data := d |}.
 Definition assign_row (T : ltable) (i : nat) (v : list pyval) : res ltable :=
   if negb (length v =? length (lt_cols T))%nat then Raise ValueError
   else if (length (lt_data T) <=? i)%nat then Raise IndexError
-  else Ok {| lt_cols := lt_cols T; lt_rows := lt_rows T; lt_nkeys := lt_nkeys T; lt_keypos := lt_keypos T;
-             lt_values := lt_values T; lt_rowline := lt_rowline T; lt_hskip := lt_hskip T; lt_skips := lt_skips T;
-             lt_data := set_nth i v (lt_data T) |}.
+  else Ok (with_data T (set_nth i v (lt_data T))).
 (** [table[key] = value] *)
 Definition assign_key (T : ltable) (k : list str) (v : list pyval) : res ltable :=
   match row_of T k with Some i => assign_row T i v | None => Raise KeyError end.
@@ -521,37 +522,8 @@ Fixpoint setup_tables_loop (fuel : nat) (st : lstate) (tablename : str) (nelt : 
       end
   end.
 
-(** ** skip_to_table_TOUGH2 (used by read_tables_TOUGH2 for a table that is absent at the first time) *)
-Fixpoint skip_to_table_loop (fuel : nat) (st : lstate) (tablename : str) (tname : option str) (c : cur) : res cur :=
-  match fuel with
-  | O => Raise OutOfFuel
-  | S f =>
-      if (match tname with Some t => str_eqb t tablename | None => false end) then Ok c
-      else
-        let c1 := snd (skipto [kw_at] 1 c) in
-        do nt <- next_table_T2 (S (length c1)) (s_fullpos st) (s_index st) c1;
-        skip_to_table_loop f st tablename (fst nt) (snd nt)
-  end.
-Definition skip_to_table_T2 (st : lstate) (tablename : str) (last : option str) (c : cur) : res cur :=
-  match last with
-  | None => do c1 <- skip_to_nonblank (snd (skipto [kw_at] 1 c));
-            skip_to_table_loop (S (length c)) st tablename (Some (s2l "element")) c1
-  | Some l => skip_to_table_loop (S (length c)) st tablename (Some l) c
-  end.
-(** [next_tablename]: ValueError from [list.index] when the name is not in _tablenames *)
-Fixpoint names_after (n : str) (l : list str) : res (option str) :=
-  match l with
-  | [] => Raise ValueError
-  | m :: r => if str_eqb m n then Ok (match r with x :: _ => Some x | [] => None end) else names_after n r
-  end.
-Definition next_tablename (ts : tabs) (last : option str) : res (option str) :=
-  match last with
-  | None => match ts with [] => Raise IndexError | (n, _) :: _ => Ok (Some n) end
-  | Some l => names_after l (map fst ts)
-  end.
-
 (** ** read_tables_TOUGH2 / _TOUGHplus: the loop after the header *)
-Fixpoint read_tables_loop (fuel : nat) (st : lstate) (tablename : str) (last : option str) (nelt : nat) (c : cur) : res lstate :=
+Fixpoint read_tables_loop (fuel : nat) (st : lstate) (tablename : str) (nelt : nat) (c : cur) : res lstate :=
   match fuel with
   | O => Raise OutOfFuel
   | S f =>
@@ -560,24 +532,20 @@ Fixpoint read_tables_loop (fuel : nat) (st : lstate) (tablename : str) (last : o
                       | Some T => do tc <- read_table_T2 T c; Ok (with_tables st (tab_set tablename (fst tc) (s_tables st)), snd tc)
                       | None =>
                           if sim_eqb (s_sim st) TPLUS then Raise KeyError        (* read_table_TOUGH2: self._table[tablename] *)
-                          else do nn <- next_tablename (s_tables st) last;
-                               match nn with
-                               | Some n => do c' <- skip_to_table_T2 st n last c; Ok (st, c')
-                               | None => Ok (st, c)
-                               end
+                          else Ok (st, skip_table_T2 (s_sim st) (s_tables st) tablename c)   (* table not present at first time step *)
                       end);
       let (st1, c1) := stc in
       do nt <- next_table st1 c1;
       match tp_rename (s_sim st1) (fst nt) nelt with
       | (None, _) => Ok st1
-      | (Some tn, nelt') => read_tables_loop f st1 tn (Some tablename) nelt' (snd nt)
+      | (Some tn, nelt') => read_tables_loop f st1 tn nelt' (snd nt)
       end
   end.
 Definition n_element : str := s2l "element".
 Definition read_tables_T2 (st : lstate) (c : cur) : res lstate :=
   do h <- read_header_T2 (s_sim st) c;
   let '(t, stp, c1) := h in
-  read_tables_loop (S (length c1)) (with_header st t stp) n_element None 0 c1.
+  read_tables_loop (S (length c1)) (with_header st t stp) n_element 0 c1.
 
 (** ** AUTOUGH2 *)
 Definition kw5 (ch : ascii) : str := repeat ch 5.
